@@ -10,6 +10,11 @@ from gradysim.simulator.event import EventLoop, EventLoopException
 
 def gen_history(seed, max_ops=60, alphabet=None, p_clear=0.03):
     r = random.Random(stable_hash("el", seed))
+    fine = alphabet is None and r.random() < 0.15
+    if fine:
+        # fine regime: 2^40 ticks per second; values one tick (9e-13 s) apart
+        b = 2 ** 40
+        alphabet = r.choice([[b, b + 1, b + 2, 2 * b], [b - 1, b, b + 1], [3 * b, 3 * b + 1, 4 * b, 4 * b - 1]])
     alphabet = alphabet or r.choice([[1024, 2048, 3072], [0, 1024], [512, 1024, 1536, 2048, 4096, 8192], [5, 5, 7]])
     n = r.randint(3, max_ops)
     ops, next_id = [], 0
@@ -27,7 +32,10 @@ def gen_history(seed, max_ops=60, alphabet=None, p_clear=0.03):
             ops.append([r.choice(["peek", "len", "now"])])
     # drain at the end so that every queued event's order is observed
     ops += [["len"]] + [["pop"]] * (next_id + 1)
-    return {"kind": "el", "ops": ops}
+    case = {"kind": "el", "ops": ops}
+    if fine:
+        case["tick"] = 2.0 ** 40
+    return case
 
 
 def enumerate_histories(max_len, alphabet=(1024, 2048, 3072)):
@@ -46,6 +54,11 @@ def enumerate_histories(max_len, alphabet=(1024, 2048, 3072)):
 
 
 def run_impl(case):
+    TICK = float(case.get("tick", 1024.0))
+
+    def to_ticks(t):
+        from common import to_ticks as tt
+        return tt(t, TICK)
     loop = EventLoop()
     out = []
     crash = None
